@@ -650,6 +650,9 @@ func multiScenario(rp *kernel.Rand, o multiOpts) *scn.Scenario {
 		switch style {
 		case 0: // one operator: every subscription is OP-only with the operator's OP, keys differ
 			cfg.OPC = ""
+			if cfg.OP == "" {
+				cfg.OP = x
+			}
 			for i := 1; i < n; i++ {
 				creds[i] = scn.Cred{K: hexCase(rp, boundary128(rp)), OPC: "", OP: cfg.OP}
 			}
